@@ -14,8 +14,12 @@ CONSTANTS
   Fall = 1
   MaxRounds = 2
   MaxConns = 2
+  NoMonitor = FALSE
+  MaxRefuse = 0
+  MaxClose = 0
+  FailedDialLeaks = FALSE
   MaxHalf = 1
   WatcherLeaves = {}
   MaxToggles = 1
-INVARIANTS TypeOK ConnToUsable EstablishedClosed EView
+INVARIANTS TypeOK ConnToUsable EstablishedClosed EView CountsAreRealConnections LCNotBusierReal
 CHECK_DEADLOCK FALSE
